@@ -821,6 +821,70 @@ func c02Features(n *c02Node) []string {
 			f["illtyped-sm-attr"] = true
 		}
 	}
+	// typed fields: own-namespace <priority/> of a presence (int8); result sets (*int) of
+	// registered iq payloads, of a message delegation and of the bind / session features
+	dtext := func(m *c02Node) string {
+		t := ""
+		for i := range m.C {
+			if m.C[i].K == 1 || m.C[i].K == 4 {
+				t += m.C[i].T
+			}
+		}
+		return t
+	}
+	conv := func(v string, bits int) bool {
+		if v == "" {
+			return true
+		}
+		_, err := strconv.ParseInt(strings.TrimSpace(v), 10, bits)
+		return err == nil
+	}
+	badRSM := func(p *c02Node) bool {
+		for i := range p.C {
+			set := &p.C[i]
+			if set.K != 0 || set.NS != c02NSRSM || set.L != "set" {
+				continue
+			}
+			for j := range set.C {
+				c := &set.C[j]
+				if c.K != 0 {
+					continue
+				}
+				switch c.L {
+				case "count", "index", "max":
+					if !conv(dtext(c), 64) {
+						return true
+					}
+				case "first":
+					for _, a := range c.A {
+						if a.L == "index" && !conv(a.V, 64) {
+							return true
+						}
+					}
+				}
+			}
+		}
+		return false
+	}
+	for i := range n.C {
+		c := &n.C[i]
+		if c.K != 0 {
+			continue
+		}
+		xn := xml.Name{Space: c.NS, Local: c.L}
+		switch {
+		case n.L == "presence" && c.L == "priority" && c.NS == n.NS && stanza.TypeRegistry.GetPresExtension(xn) == nil:
+			if !conv(dtext(c), 8) {
+				f["illtyped-priority"] = true
+			}
+		case n.L == "iq" && (n.NS == c02NSClient || n.NS == c02NSComponent) && !(c.L == "error" && c.NS == n.NS) && stanza.TypeRegistry.GetIQExtension(xn) != nil,
+			n.L == "message" && c.NS == "urn:xmpp:delegation:1" && c.L == "delegation",
+			n.NS == c02NSStream && n.L == "features" && (c.NS == "urn:ietf:params:xml:ns:xmpp-bind" && c.L == "bind" || c.NS == "urn:ietf:params:xml:ns:xmpp-session" && c.L == "session"):
+			if badRSM(c) {
+				f["illtyped-rsm"] = true
+			}
+		}
+	}
 	if n.NS == c02NSSM && n.L == "failed" {
 		for i := range n.C {
 			c := &n.C[i]
@@ -968,7 +1032,7 @@ func (c02) Oracle(inp interface{}, obs Sx) (string, string) {
 // their decisive feature alone; everything else by what failed, the element kind and all
 // risky features of the element.
 func c02Sig(what, label, feat string) string {
-	for _, f := range []string{"illtyped-extension", "illtyped-sm-attr"} {
+	for _, f := range []string{"illtyped-extension", "illtyped-sm-attr", "illtyped-priority", "illtyped-rsm"} {
 		for _, x := range strings.Split(feat, "+") {
 			if x == f {
 				return what + ":" + f
@@ -1157,7 +1221,58 @@ func (g *c02Gen) errorChild() c02Node {
 }
 
 // registered extensions with valid content for their Go struct
+const c02NSRSM = "http://jabber.org/protocol/rsm"
+
+// rsm: a XEP-0059 result set; count / index / max are *int elements and first has an *int
+// attribute index in the Go struct.  bad: one of them does not convert.
+func (g *c02Gen) rsm(bad bool) c02Node {
+	good := []string{"10", " 5 ", "", "0", "-1", "+7"}
+	ill := []string{"x", "1.5", "99999999999999999999", "5 5", "+"}
+	val := func() string { return good[g.r.Intn(len(good))] }
+	set := c02El(c02NSRSM, "set")
+	if g.r.Intn(2) == 0 {
+		set.C = append(set.C, c02El(c02NSRSM, "after", c02Txt("a1")))
+	}
+	if g.r.Intn(2) == 0 {
+		set.C = append(set.C, c02El(c02NSRSM, "first", c02Txt("f")).with("index", val()))
+	}
+	for _, l := range []string{"count", "index", "max"} {
+		if g.r.Intn(2) == 0 {
+			c := c02El(c02NSRSM, l, c02Txt(val()))
+			if g.r.Intn(5) == 0 { // character data around a nested element is concatenated
+				c.C = []c02Node{c02Txt("1"), c02El("u", "y", c02Txt("9")), c02Txt("2")}
+			}
+			set.C = append(set.C, c)
+		}
+	}
+	if bad {
+		v := ill[g.r.Intn(len(ill))]
+		switch g.r.Intn(4) {
+		case 0:
+			set.C = append(set.C, c02El(c02NSRSM, "first", c02Txt("f")).with("index", v))
+		case 1: // the field tags match the local name in any namespace
+			set.C = append(set.C, c02El("urn:example:ext", "max", c02Txt(v)))
+		default:
+			set.C = append(set.C, c02El(c02NSRSM, []string{"count", "index", "max"}[g.r.Intn(3)], c02Txt(v)))
+		}
+		hist("rsm:ill-typed")
+	} else {
+		hist("rsm:valid")
+	}
+	return set
+}
+
+// extension: a registered extension; iq payloads and the message delegation sometimes carry a
+// result set (seldom an ill-typed one)
 func (g *c02Gen) extension(kind string) c02Node {
+	n := g.extension0(kind)
+	if (kind == "iq" || n.L == "delegation") && kind != "presence" && g.r.Intn(4) == 0 {
+		n.C = append(n.C, g.rsm(g.r.Intn(6) == 0))
+	}
+	return n
+}
+
+func (g *c02Gen) extension0(kind string) c02Node {
 	extra := func(n c02Node) c02Node { // unknown content inside a tag-driven extension is skipped
 		if g.r.Intn(3) == 0 && g.budget > 0 {
 			g.budget--
@@ -1479,7 +1594,14 @@ func (g *c02Gen) stanza(ns, kind string) c02Node {
 			case "presence":
 				c = c02El(ns, []string{"show", "status", "priority"}[g.r.Intn(3)])
 				if c.L == "priority" {
-					c.C = []c02Node{c02Txt([]string{"5", "-3", "0"}[g.r.Intn(3)])}
+					c.C = []c02Node{c02Txt([]string{"5", "-3", "0", "", " 7 ", "+3", "-128", "127"}[g.r.Intn(8)])}
+					switch g.r.Intn(8) {
+					case 0: // character data around a nested element / a comment / CDATA is concatenated
+						c.C = []c02Node{c02Txt("1"), c02El("u", "y", c02Txt("9")), {K: 2, T: " c "}, {K: 4, T: "2"}}
+					case 1: // does not convert to int8
+						c.C = []c02Node{c02Txt([]string{"high", "300", "-129", "5 5", "+", "1.5"}[g.r.Intn(6)])}
+						hist("priority:ill-typed")
+					}
 				} else {
 					c.C = []c02Node{c02Txt("away")}
 				}
@@ -1553,7 +1675,14 @@ func (g *c02Gen) top(component bool) c02Node {
 			f.C = append(f.C, c02El(c02NSSASL, "mechanisms", c02El(c02NSSASL, "mechanism", c02Txt("PLAIN")), c02El(c02NSSASL, "mechanism", c02Txt("X-OAUTH2"))))
 		}
 		if g.r.Intn(2) == 0 {
-			f.C = append(f.C, c02El("urn:ietf:params:xml:ns:xmpp-bind", "bind"), c02El(c02NSSM, "sm"), c02El("urn:ietf:params:xml:ns:xmpp-session", "session"))
+			bind, sess := c02El("urn:ietf:params:xml:ns:xmpp-bind", "bind"), c02El("urn:ietf:params:xml:ns:xmpp-session", "session")
+			if g.r.Intn(3) == 0 {
+				bind.C = append(bind.C, g.rsm(g.r.Intn(6) == 0))
+			}
+			if g.r.Intn(3) == 0 {
+				sess.C = append(sess.C, g.rsm(g.r.Intn(6) == 0))
+			}
+			f.C = append(f.C, bind, c02El(c02NSSM, "sm"), sess)
 		}
 		if g.r.Intn(2) == 0 {
 			f.C = append(f.C, c02El("http://jabber.org/protocol/caps", "c").with("hash", "sha-1").with("node", "n").with("ver", "v"))
@@ -1775,6 +1904,18 @@ func (g *c02Gen) probe(kind int) c02In {
 		default:
 			in.Items = []c02Node{c02El(c02NSStream, "features", c02El("urn:ietf:params:xml:ns:xmpp-bind", "bind", c02El(ext, "set"))), after}
 		}
+	case 19: // audit M1: an own-namespace <priority/> that does not convert to int8
+		in.Items = []c02Node{c02El(c02NSClient, "presence", c02El(c02NSClient, "priority", c02Txt([]string{"high", "300", "-129"}[g.r.Intn(3)]))).with("id", "p1"), after}
+	case 20: // audit M2/M3: a result set that does not convert, in an iq payload / below a stream feature
+		bad := c02El(c02NSRSM, "set", c02El(c02NSRSM, "max", c02Txt("x")))
+		switch g.r.Intn(3) {
+		case 0:
+			in.Items = []c02Node{c02El(c02NSClient, "iq", c02El("http://jabber.org/protocol/disco#items", "query", bad)).with("id", "1").with("type", "result"), after}
+		case 1:
+			in.Items = []c02Node{c02El(c02NSStream, "features", c02El("urn:ietf:params:xml:ns:xmpp-bind", "bind", bad)), after}
+		default:
+			in.Items = []c02Node{c02El(c02NSClient, "message", c02El("urn:xmpp:delegation:1", "delegation", bad)).with("id", "m"), after}
+		}
 	case 5: // body below an unknown child
 		in.Items = []c02Node{c02El(c02NSClient, "message", c02El(c02NSClient, "body", c02Txt("real")), c02El("u", "x", c02El(c02NSClient, "body", c02Txt("fake")))).with("id", "b"), after}
 	}
@@ -1791,7 +1932,7 @@ func (c02) Gen(r *rand.Rand, tier string) []interface{} {
 	}
 	var out []interface{}
 	out = append(out, c02In{Mode: "stream", Closed: true}, c02In{Mode: "stream"}, c02In{Mode: "stream", Component: true, Closed: true})
-	for k := 0; k < 19; k++ {
+	for k := 0; k < 21; k++ {
 		for rep := 0; rep < 4; rep++ {
 			out = append(out, g.probe(k))
 		}
